@@ -12,6 +12,7 @@ RULE = ("families of 2-4 inputs (text and NetCDF) that list times / lead times /
         "commands must be byte-identical; (c) the files are given in every order (<= 24) and every input's csv column "
         "must stay the same and move with its file. signature = (#inputs, formats, which of rows/cols/dims/files were "
         "permuted, dims); non-trivial = the permutation is not the identity and the inputs' stored orders differ.")
+RULE += " " + 'About a third of the families contain later files without an observation column (their observations are borrowed by coordinates).'
 ASSUMPTIONS = ["no duplicated coordinates inside a file; location metadata consistent across files (the first file's is used)",
                "-T is not combined with permuted NetCDF dimensions here (window-by-position is reported by C15)"]
 REQUIRED_COUNTERS = ["cells_compared", "permutation_pairs", "file_orders", "columns_compared"]
